@@ -242,7 +242,7 @@ impl Check for C02 {
     }
     fn runs(&self, tier: Tier) -> u64 {
         match tier {
-            Tier::Quick => 20_000,
+            Tier::Quick => 15_000,
             Tier::Thorough => 900_000,
         }
     }
